@@ -89,6 +89,9 @@ func putTargets(st *Store) []cid.Cid {
 	var out []cid.Cid
 	for j := 0; j < nTargets; j++ {
 		b := []byte(fmt.Sprintf("target-block-%d", j))
+		if j == 0 {
+			b = []byte{} // an entry of cumulative size 0 (an empty file)
+		}
 		mh, _ := multihash.Sum(b, multihash.SHA2_256, -1)
 		c := cid.NewCidV1(cid.Raw, mh)
 		st.Put(c, b)
@@ -635,6 +638,10 @@ func runDirCase(dc *DirCase, tr *Tr) error {
 				case "segment":
 					n, err := node.LookupBySegment(datamodel.PathSegmentOfString(name))
 					res, link = lookupRes(n, err, dw)
+				case "dpbnode":
+					// the key is a node of the kind the iterators yield (a dag-pb String), not a basicnode string
+					n, err := node.LookupByNode(dpbString(name))
+					res, link = lookupRes(n, err, dw)
 				case "native":
 					nd, ok := node.(nativeDir)
 					if !ok {
@@ -672,6 +679,9 @@ func runDirCase(dc *DirCase, tr *Tr) error {
 						res = "noiter"
 						return
 					}
+					// the yielded nodes are kept and read only after the iteration has ended: a pair handed out
+					// by Next stays what it was (nodes are immutable values) however far the iterator has moved on
+					var kn, vn []ipld.Node
 					for !it.Done() {
 						steps++
 						if steps > budget {
@@ -683,8 +693,11 @@ func runDirCase(dc *DirCase, tr *Tr) error {
 							errs++
 							continue
 						}
-						ks, _ := k.AsString()
-						l, lerr := v.AsLink()
+						kn, vn = append(kn, k), append(vn, v)
+					}
+					for i := range kn {
+						ks, _ := kn[i].AsString()
+						l, lerr := vn[i].AsLink()
 						lc := 0
 						if lerr == nil {
 							lc = dw.classOf(l.(cidlink.Link).Cid)
